@@ -244,6 +244,10 @@ def verify_catalogue(c, d, msg, sig, tier):
     other = ec.b32(c.mulg((d * 3 + 1) % N or 2)[0])
     out["otherkey"] = (other, msg, sig)
     out["key-offcurve"] = (ec.b32(x_bad), msg, sig)
+    # x-only key 00..00 is not on the curve; (x(sG), s) with even-Y sG would verify if the key were taken as infinity
+    sf = next(v for v in range(2, 50) if c.mulg(v)[1] % 2 == 0)
+    out["key=0/forgery-R=x(sG)"] = (b"\x00" * 32, msg, ec.b32(c.mulg(sf)[0]) + ec.b32(sf))
+    out["key=0"] = (b"\x00" * 32, msg, sig)
     out["key>=p"] = (ec.b32(PP + 1), msg, sig)
     # negated R (odd-Y R with the same x) keeps x: the signature with s for -k must not verify
     out["s-for-negated-nonce"] = (pk, msg, r + ec.b32((N - s) % N))
